@@ -482,27 +482,28 @@ def eval_case(c):
                                  stream=c["stream"] + "/declared"))
         # the model: same request through code-mirror and spec
         real_decl = EncodingDetector.find_declared_encoding(stripped, is_html)
+        light = bool(c.get("light"))   # long documents: only the byte-level ops go to the model (no codec table / decoded texts)
         names = known_all + list(c["user"]) + BOM_NAMES + ["utf-8", "windows-1252", real_decl, c.get("truth_declared")]
-        tab, txt = codec_table(stripped, names)
+        tab, txt = ("-", "-") if light else codec_table(stripped, names)
         args = f"{1 if is_html else 0} {p_names(c['known'])} {p_names(c.get('override') or [])} {p_names(c['user'])} {p_names(c['exclude'])}"
         mb = "b:" + (",".join(map(str, m)))
         lines.append(f"c07 dammit {mb} {args} {p_bytes(stripped)} {tab} {txt}")
-        expect.append(fmt_res(rd))
+        expect.append(fmt_res(rd) if not light else None)
         tags.append("dammit")
         lines.append(f"c07 dammitspec {mb} {args} {p_bytes(stripped)} {tab} {txt}")
-        expect.append(f"text={p_text(rd['text'])} enc={p_opt(rd['enc'])} repl={1 if rd['repl'] else 0}" if m != b"" else None)
+        expect.append(f"text={p_text(rd['text'])} enc={p_opt(rd['enc'])} repl={1 if rd['repl'] else 0}" if m != b"" and not light else None)
         tags.append("dammitspec")
         lines.append(f"c07 encodings {p_bytes(m)} {args}")
         expect.append(p_names(encs))
         tags.append("encodings")
         lines.append(f"c07 candidates {p_bytes(m)} {args}")
-        expect.append(p_names(encs))
+        expect.append(p_names(encs) if not light else None)
         tags.append("candidates")
         lines.append(f"c07 declared {p_bytes(stripped)} {1 if is_html else 0}")
         expect.append(p_opt(real_decl))
         tags.append("declared")
         lines.append(f"c07 bom {p_bytes(m)}")
-        expect.append(f"{p_bytes(stripped)} {p_opt(sniffed)}")
+        expect.append(f"{p_bytes(stripped)} {p_opt(sniffed)}" if not light else None)
         tags.append("bom")
         if c.get("soup"):
             rs = real_soup(c)
@@ -513,7 +514,7 @@ def eval_case(c):
                 viol.append(dict(what="BeautifulSoup constructor: decoded text / original_encoding / declared_html_encoding / contains_replacement_characters differ from the property statement",
                                  expected=short(want), observed=short(rs), stream=c["stream"] + "/soup"))
             lines.append(f"c07 prepare {mb} {p_opt(fe)} {p_names(c['exclude'])} {p_bytes(stripped)} {tab} {txt}")
-            expect.append(("ok " + fmt_res(rs)) if rs != "rejected" else "rejected")
+            expect.append((("ok " + fmt_res(rs)) if rs != "rejected" else "rejected") if not light else None)
             tags.append("prepare")
     else:
         # str input: pass-through
@@ -658,6 +659,14 @@ def work_fixed(job):
     all_lines, all_expect, all_meta = [], [], []
     for c in cases:
         v, lines, expect, tags, o = eval_case_safe(c)
+        if c.get("stream") == "window":
+            try:
+                v = v + window_direct(c)
+            except Exception as e:   # noqa: BLE001
+                v = v + [dict(what=f"find_declared_encoding raised {type(e).__name__}: {e}", expected=None, observed=None, stream="window/declared")]
+            wx, wh = c["windows"]
+            w = wx if c["decl"] == "xml" else wh
+            dist["window:%s:%s" % (c["decl"], "inside" if c["decl_end"] <= w else "outside") + (":long" if c.get("light") else "")] += 1
         dist[f"stream:{name}"] += 1
         dist["how:" + o["how"]] += 1
         nontriv.append(hashlib.sha256(json.dumps(c, sort_keys=True).encode()).hexdigest()[:12])
@@ -676,6 +685,143 @@ def work_fixed(job):
         if e != r:
             dis.append(dict(case=c, op=t, real=e[:600], model=r[:600], line=l[:4000], had_violation=hadv))
     return dict(dist=dist, viols=viols, nontriv=nontriv, samples=[], dis=dis, n=len(cases))
+
+
+# ----------------------------------------------------------------------------------------------------------------------
+# the search windows of the declaration (XML declaration: first 1024 bytes; <meta>: first max(2048, 5% of the document))
+# ----------------------------------------------------------------------------------------------------------------------
+WINDOW_TEXTS = [("koi8-r", "Привет, мир"), ("iso-8859-7", "Καλημέρα κόσμε"), ("euc-jp", "こんにちは世界"), ("windows-1252", "café “déjà vu”"),
+                ("iso-8859-2", "Příliš žluťoučký kůň"), ("shift_jis", "こんにちは"), ("cp1251", "Привет"), ("big5", "你好世界")]
+META_TPL = ['<meta charset="%s">', "<meta charset='%s'/>", "<meta charset=%s>", '<META CHARSET="%s">',
+            '<meta http-equiv="Content-Type" content="text/html; charset=%s">', "<meta http-equiv='content-type' content='text/html;charset=%s'>",
+            '<meta content="text/html; charset=%s" http-equiv="Content-Type" />']
+XML_TPL = ['<?xml version="1.0" encoding="%s"?>', "<?xml version='1.0' encoding='%s'?>", '<?xml version="1.0" encoding="%s" standalone="yes"?>']
+HEAD_FILL = ['<link rel="stylesheet" href="/static/site.css">', "<script>var cfg = {a: 1, b: 'x'};</script>", "<title>A page</title>",
+             "<!-- generated by a template; do not edit -->", '<link rel="icon" href="/favicon.ico" type="image/x-icon">', "\n  "]
+
+
+def head_filler(rng, n):
+    """exactly n ASCII characters of ordinary <head> content in front of a <meta>: no `<meta`, no `charset`, no `<?`"""
+    base = "<!DOCTYPE html><html><head>"
+    if n < len(base) + 7:
+        return "x" * n
+    out = base
+    while True:
+        piece = rng.choice(HEAD_FILL)
+        if len(out) + len(piece) + 7 > n:
+            break
+        out += piece
+    return out + "<!--" + "-" * (n - len(out) - 7) + "-->"
+
+
+def documented_windows(length, entire):
+    """what find_declared_encoding documents/implements as its search windows (independent of the model: Python arithmetic)"""
+    if entire:
+        return length, length
+    return 1024, max(2048, int(length * 0.05))
+
+
+def window_truth(kind, name, end, length, is_html, entire=False):
+    """The declaration is found iff it ends inside the window (an XML declaration counts for HTML too; a <meta> only for HTML)."""
+    wx, wh = documented_windows(length, entire)
+    if kind == "xml":
+        return name.lower() if end <= wx else None
+    return name.lower() if (is_html and end <= wh) else None
+
+
+def window_case(rng, kind, end, total, is_html):
+    """A document whose declaration's last needed character (closing quote / `>` of the value, `?>` of the XML declaration) is
+    character number `end` (1-based), padded to about `total` bytes."""
+    codec, text = rng.choice(WINDOW_TEXTS)
+    name = spell(rng, codec)
+    if kind == "xml":
+        tpl = rng.choice(XML_TPL)
+        decl = tpl % name
+        off = len(decl)
+        if end < off:
+            return None
+        head = "".join(rng.choice(" \n\t") for _ in range(end - off))
+        after = "\n<html><body><p>" + text + "</p>"
+    else:
+        tpl = rng.choice(META_TPL)
+        decl = tpl % name
+        off = tpl.index("%s") + len(name) + 1
+        if end < off:
+            return None
+        head = head_filler(rng, end - off)
+        after = "</head><body><p>" + text + "</p>"
+    doc = head + decl + after
+    body_pad = total - len(doc.encode(codec, "ignore")) - len("</body></html>")
+    if body_pad > 0:
+        unit = "<p>" + text + " lorem ipsum</p>\n"
+        ulen = len(unit.encode(codec, "ignore"))
+        doc += unit * (body_pad // ulen) + "x" * (body_pad % ulen)
+    doc += "</body></html>"
+    markup = doc.encode(codec, "ignore")
+    r = rng.random()
+    known, user, exclude = [], [], []
+    if r < 0.15:
+        known = [rng.choice(["ascii", "utf-8"])]
+    elif r < 0.25:
+        exclude = [rng.choice(["utf-8", "UTF-8", "windows-1252"])]
+    elif r < 0.32:
+        user = ["ascii"]
+    c = dict(stream="window", markup_hex=markup.hex(), is_html=is_html, known=known, user=user, exclude=exclude, override=[],
+             soup=is_html and not user and len(markup) < 120000, light=len(markup) > 6000, codec=codec, decl=kind, declname=name,
+             declclass="right", bom="none", text="window", decl_end=end, windows=list(documented_windows(len(markup), False)),
+             truth_declared=window_truth(kind, name, end, len(markup), is_html))
+    return c
+
+
+def window_cases(seed, thorough):
+    rng = rng_for(seed, "C07", "window")
+    out = []
+    reps = 4 if thorough else 1
+    for _ in range(reps):
+        for is_html in (True, False):
+            # short documents: the <meta> window is 2048, the XML window 1024
+            for kind in ("meta", "meta", "xml"):
+                ends = [w + d for w in (1024, 2048) for d in (-3, -2, -1, 0, 1, 2, 3)]
+                ends += [w + rng.randint(4, 70) for w in (1024, 2048)] + [w - rng.randint(4, 70) for w in (1024, 2048)]   # straddling / wholly inside
+                ends += [rng.randint(80, 1000), rng.randint(1100, 2000), rng.randint(2100, 3000)]
+                for e in ends:
+                    c = window_case(rng, kind, e, e + rng.randint(60, 900), is_html)
+                    if c:
+                        out.append(c)
+        # long documents: 5% of the length exceeds 2048 from 40 980 bytes on
+        for total in (40940, 40979, 40980, 41000, 41020, 60000, 100000):
+            w = max(2048, int(total * 0.05))
+            ends = sorted({w - 2, w - 1, w, w + 1, w + 2, w + 40, 2047, 2048, 2049, 1024, 1025, max(2050, w - rng.randint(3, 300))})
+            if total >= 60000 and not thorough:
+                ends = ends[::2]
+            for e in ends:
+                c = window_case(rng, "meta", e, total, True)
+                if c:
+                    out.append(c)
+        for total in (41000, 60000):
+            for e in (1023, 1024, 1025, 2048):
+                c = window_case(rng, "xml", e, total, rng.random() < 0.5)
+                if c:
+                    out.append(c)
+    return out
+
+
+def window_direct(c):
+    """find_declared_encoding itself, bytes and str, search_entire_document False and True, against the documented windows."""
+    from bs4.dammit import EncodingDetector
+    viol = []
+    m = bytes.fromhex(c["markup_hex"])
+    kind = "xml" if c["decl"] == "xml" else "meta"
+    for label, doc in (("bytes", m), ("str", m.decode(c["codec"], "replace"))):
+        for entire in (False, True):
+            want = window_truth(kind, c["declname"], c["decl_end"], len(doc), c["is_html"], entire)
+            got = EncodingDetector.find_declared_encoding(doc, c["is_html"], search_entire_document=entire)
+            if got != want:
+                wx, wh = documented_windows(len(doc), entire)
+                viol.append(dict(what=f"find_declared_encoding({label}, is_html={c['is_html']}, search_entire_document={entire}) does not report a declaration "
+                                      f"according to the documented search window (declaration ends at character {c['decl_end']}; XML window {wx}, <meta> window {wh})",
+                                 expected=want, observed=got, stream="window/declared"))
+    return viol
 
 
 def declared_stream(seed, n):
@@ -830,6 +976,11 @@ def run(ctx: Ctx):
             n -= chunk
             k += 1
     fixed = [("edge", edge_cases()), ("alias", alias_cases())]
+    wc = window_cases(ctx.seed, ctx.thorough)
+    for i in range(0, len(wc), 40):
+        fixed.append(("window", wc[i:i + 40]))
+    ctx.exhaustive_parts.append("declaration windows: XML declaration / <meta> ending at every offset within 3 of 1024, 2048 and 5% of the length "
+                                "(documents of 40 940 .. 100 000 bytes), both is_html settings, bytes and str, search_entire_document False and True")
     if corpus:
         fixed.insert(0, ("corpus", corpus))
     procs = min(16, os.cpu_count() or 2)
@@ -907,6 +1058,9 @@ def replay(path):
     c.setdefault("override", [])
     _patch_feed()
     viol, lines, expect, tags, o = eval_case(c)
+    if c.get("stream") == "window":
+        viol = viol + window_direct(c)
+        print("declaration ends at character", c["decl_end"], "; documented windows (XML, <meta>):", c["windows"], "; document length", len(case_markup(c)))
     print("markup:", repr(case_markup(c))[:300])
     print("arguments:", {k: c[k] for k in ("is_html", "known", "override", "user", "exclude")})
     print("property demands:", short(o))
